@@ -246,17 +246,23 @@ func runC13(r *core.Run) int {
 	nPat := r.Pick(500, 12000)
 	nInputs := r.Pick(3, 5)
 	base := rand.New(rand.NewSource(r.Seed*275604541 + 13)).Int63()
+	fixedRTL := []string{`a*b*c*d*`, `\w*\d*[ab]*x*y*z*`, `(?:a*b*)*c*d*`, `a*?b*?c*?d*?e`, `x(?<=a*b*c*d*x)`, `(?<=(?:a*b*c*){2}d*)e*f*`, `[ab]*[bc]*[cd]*[de]*\b`}
 	fixed := []string{`(?:^){40}a`, `(a|b|c|d|e)*z`, `(?:(?:a|ab)(?:c|bcd))*(?=x)y?`, `((a{1,3}){1,3}){1,3}b`, `(?:a*?b*?c*?)*d`, `(?<=(a|b)*)c+`, `(?>a+|b+)*(?!c)\w+?\d`, `(?:(?:(?:(?:x?){3}){3}){3}){3}y`}
 	r.Parallel(nPat, func(i int, l *core.Local) {
 		rng := rand.New(rand.NewSource(base + int64(i)*1000003))
 		var pc *patCase
 		if i < len(fixed) {
 			pc = &patCase{src: fixed[i], origin: "fixed"}
-			g := gen.NewG(rng, c13Profile(rng))
-			_ = g
+		} else if i < len(fixed)+2*len(fixedRTL) {
+			// many adjacent single-character loops running right to left (RightToLeft option or look-behind)
+			k := i - len(fixed)
+			pc = &patCase{src: fixedRTL[k%len(fixedRTL)], origin: "fixed-rtl"}
+			if k < len(fixedRTL) {
+				pc.opts = int(regexp2.RightToLeft)
+			}
 		} else {
 			opts := 0
-			if rng.Intn(6) == 0 {
+			if rng.Intn(3) == 0 {
 				opts |= int(regexp2.RightToLeft)
 			}
 			if rng.Intn(6) == 0 {
@@ -285,7 +291,7 @@ func runC13(r *core.Run) int {
 				inputs = append(inputs, long)
 			}
 		} else {
-			inputs = [][]rune{[]rune(strings.Repeat("ab", 60) + "cz"), []rune(strings.Repeat("a", 200)), []rune(strings.Repeat("abcd", 50) + "xy1"), []rune("xxxxxxxxxxxxxxxxxxxxxxxxxxxxxxy")}
+			inputs = [][]rune{[]rune("aabbccdd"), []rune("aabbccddxe"), []rune(strings.Repeat("ab", 60) + "cz"), []rune(strings.Repeat("a", 200)), []rune(strings.Repeat("abcd", 50) + "xy1"), []rune("xxxxxxxxxxxxxxxxxxxxxxxxxxxxxxy")}
 		}
 		l.Count("patterns", 1)
 		st := func(k string) { l.Count(k, 1) }
